@@ -307,11 +307,24 @@ def reviewed(ctx, b, bi, t, cname, key, where, tag):
     if "OneIter" in b.name:
         # structural residue: the cursor guard dominates the scan
         fs = facts_at(b, bi)
+
+        def spath(t_):
+            """Field path of a cursor component, also through a local it was copied into once (`let (rank, start) = self.next`)."""
+            p_ = self_path(t_)
+            if p_:
+                return p_
+            t0 = core(t_)
+            if t0[0] == "var":
+                ds = b.defs().get(t0[1], [])
+                if len(ds) == 1 and ds[0][2] == "assign" and ds[0][3]["r"] == "use":
+                    return self_path(b.term_of_operand(ds[0][3]["o"]))
+            return None
         if b.name.endswith("::nth"):
-            ok = any(f[0] == "cmp" and f[1] == "Lt" and core(f[2])[:2] == ("param", 1) for f in fs)
+            ok = any(f[0] == "cmp" and ((f[1] == "Lt" and core(f[2])[:2] == ("param", 1)) or (f[1] == "Gt" and core(f[3])[:2] == ("param", 1))) for f in fs)
             residue = "scan dominated by n < limit.0 - next.0"
         else:
-            ok = any(f[0] == "cmp" and f[1] == "Lt" and self_path(f[2]) == ["next", "0"] and self_path(f[3]) == ["limit", "0"] for f in fs)
+            ok = any(f[0] == "cmp" and ((f[1] == "Lt" and spath(f[2]) == ["next", "0"] and spath(f[3]) == ["limit", "0"]) or
+                                        (f[1] == "Gt" and spath(f[3]) == ["next", "0"] and spath(f[2]) == ["limit", "0"])) for f in fs)
             residue = "scan dominated by next.0 < limit.0"
         if ok and b.name.endswith("::next_back"):
             # the backward scan starts in the word that holds bit limit.1 - 1 (limit.1 is exclusive and may equal the length, whose
